@@ -411,7 +411,19 @@ func (s *Sim) execBlock(spec *BlockSpec) {
 	}
 	s.cur = eb
 	s.Hooks.beginBlock(eb)
-	eb.Res = s.N0.Apply(s.W, blk)
+	res0 := s.N0.Finalize(s.W, blk)
+	if n := s.N0.DB.ReleaseAll(); n > 0 {
+		// cosmos-sdk's gaskv store charges the seek gas after it has created the parent
+		// iterator and before it hands the iterator to the caller: an out-of-gas panic there
+		// (our gas-starvation fault) leaks a database iterator. On a real disk that is a
+		// resource leak reclaimed by the GC finalizer; a MemDB iterator holds a read lock and
+		// Commit would dead-lock, so the simulated disk reclaims them here.
+		s.Stats.Inc("probe/db_iterator_leaked_on_out_of_gas", float64(n))
+	}
+	if res0.Err == nil && res0.Panic == "" {
+		s.N0.Commit(&res0)
+	}
+	eb.Res = res0
 	s.Height, s.Now = h, now
 	s.ctxCache = nil
 	if eb.Res.Err != nil || eb.Res.Panic != "" {
@@ -562,7 +574,11 @@ func (s *Sim) applyReplica(spec *BlockSpec, blk *Block, eb *ExecBlock) {
 		}
 	}
 	if !done {
-		res = s.N1.Apply(s.W, blk)
+		res = s.N1.Finalize(s.W, blk)
+		s.N1.DB.ReleaseAll()
+		if res.Err == nil && res.Panic == "" {
+			s.N1.Commit(&res)
+		}
 	}
 	s.compareReplica("n1", eb, res, strings.Join(kinds, ","))
 	if s.N1 == nil {
